@@ -13,5 +13,7 @@
 //@include units/speclib_edf.rs
 //@include units/ros2_ecrts19.rs
 //@include units/lemmas_ecrts19.rs
+//@include units/fifo.rs
+//@include units/lemmas_es_fifo.rs
 
 fn main() {}
